@@ -421,9 +421,12 @@ CallEnter ==                 \* arguments bound to parameters in order, by value
   /\ UNCHANGED <<glob, heap>> /\ UNCH_WORLD
 
 StripNl(s) == IF Len(s) > 0 /\ SubSeq(s, Len(s), Len(s)) = "\n" THEN SubSeq(s, 1, Len(s) - 1) ELSE s
+\* a path exists if it is a file or a directory on the way to one
+IsDirOf(d, q) == Len(q) > Len(d) + 1 /\ SubSeq(q, 1, Len(d) + 1) = d \o "/"
+PathExists(p) == p \in DOMAIN fs \/ (p # "" /\ \E q \in DOMAIN fs : IsDirOf(p, q))
 ApplyExists ==
   /\ Top.t = "apply" /\ Top.n.k = "exists"
-  /\ vals' = Append(DropVals(1), BoolV(TopVal.v \in DOMAIN fs)) /\ ctl' = Pop
+  /\ vals' = Append(DropVals(1), BoolV(PathExists(TopVal.v))) /\ ctl' = Pop
   /\ UNCHANGED status /\ UNCH_STORE /\ UNCH_WORLD
 ApplyRead ==                 \* the content without its final newline
   /\ Top.t = "apply" /\ Top.n.k = "read"
